@@ -203,7 +203,11 @@ def check(s):
     s.notes.append(f"C18.4: {len(pols)} policy classes, {n} array-annotated fields")
     # ---------------------------------------------------------------- C18.5 the skeleton can be built: constructors are shape-evaluable
     check_constructors_traceable(s)
-    for r_, n_ in (("C18.1", 1), ("C18.2", 9), ("C18.3", 6), ("C18.4", 1), ("C18.5", 30)):
+    # C18.6 a loaded policy went through a pytree unflatten: mapping-valued fields (Dict spaces) must keep their order there, or the
+    # restored policy feeds its network a permuted observation although every parameter is bit-identical
+    from .C12 import check_mapping_fields
+    check_mapping_fields(s, "C18.6")
+    for r_, n_ in (("C18.1", 1), ("C18.2", 9), ("C18.3", 6), ("C18.4", 1), ("C18.5", 30), ("C18.6", 2)):
         s.floor(r_, n_)
 
 
